@@ -49,7 +49,7 @@ fn next_int() -> i128 {
 
 #[inline(never)]
 pub fn param(i: usize) -> i64 {
-    PARAMS.with(|p| p.borrow()[i])
+    PARAMS.with(|p| p.borrow().get(i).copied().unwrap_or(0))
 }
 #[inline(never)]
 pub fn any_i64() -> i64 {
